@@ -1,7 +1,8 @@
 (* C15 property theorems (statements only): the matrix of _derivative_transformation_matrix (entries sympy.bell(i+1, j+1, derivs)). *)
-From Coq Require Import Reals.
+From Coq Require Import Reals List.
 From Coquelicot Require Import Coquelicot.
 From P Require Import C15_bell C15_gen C15_ref C15_model C15_proofs_fdb C15_proofs_matrix.
+Import ListNotations.
 Open Scope R_scope.
 
 (* applied to the jet (u', u'', u''') at g x it gives the reference jet (y', y'', y''') at x; the 1x1 and 2x2 matrices likewise *)
@@ -22,24 +23,6 @@ Theorem jet_matrix_derive : forall (u0 u1 u2 u3 g g1 g2 g3 : R -> R) (x : R),
   is_derive (fun t => snd (fst (J t))) x (snd (J x)).
 Proof. exact jet_matrix_derive_lemma. Qed.
 Print Assumptions jet_matrix_derive.
-
-(* invertible (a bijection of R^N: unique pre-image of every vector) iff g' <> 0: conversion of initial data *)
-Theorem jet_matrix_invertible_1 : forall d1 d2 d3 : R,
-  (forall w, exists v, mv1 d1 d2 d3 v = w /\ forall v', mv1 d1 d2 d3 v' = w -> v' = v) <-> d1 <> 0.
-Proof. exact mv1_bij_lemma. Qed.
-Print Assumptions jet_matrix_invertible_1.
-
-Theorem jet_matrix_invertible_2 : forall d1 d2 d3 : R,
-  (forall w1 w2, exists v1 v2, mv2 d1 d2 d3 v1 v2 = (w1, w2) /\
-                 forall v1' v2', mv2 d1 d2 d3 v1' v2' = (w1, w2) -> v1' = v1 /\ v2' = v2) <-> d1 <> 0.
-Proof. exact mv2_bij_lemma. Qed.
-Print Assumptions jet_matrix_invertible_2.
-
-Theorem jet_matrix_invertible_3 : forall d1 d2 d3 : R,
-  (forall w1 w2 w3, exists v1 v2 v3, mv3 d1 d2 d3 v1 v2 v3 = (w1, w2, w3) /\
-                    forall v1' v2' v3', mv3 d1 d2 d3 v1' v2' v3' = (w1, w2, w3) -> v1' = v1 /\ v2' = v2 /\ v3' = v3) <-> d1 <> 0.
-Proof. exact mv3_bij_lemma. Qed.
-Print Assumptions jet_matrix_invertible_3.
 
 (* the smaller matrices are leading blocks of the 3x3 one *)
 Theorem jet_matrix_blocks : forall d1 d2 d3 v1 v2 : R,
